@@ -245,7 +245,7 @@ func (r *run) batch(sub []Op) (*failure, bool) {
 		if !ok && mayBeLost {
 			// queued on a connection that died at that moment: ended by the proxy's timeout (see leaseOnce)
 			s.state = sActive
-			if f := r.timeoutLost(s); f != nil {
+			if f := r.timeoutLostQuiet(s, false); f != nil {
 				return f, false
 			}
 			continue
